@@ -104,10 +104,10 @@ Record var := { v_name : string; v_dims : list string; v_attrs : props;
 Record file := { d_dims : list (string * Z); d_vars : list var; d_gatts : props }.
 
 Inductive event := ERead | EOpenR | EOpenA | EClose | ECreateDim (n : string)
-                 | ECreateVar (n : string) | ESetAttr (n : string) | ERaise.
+                 | ECreateVar (n : string) | ESetAttr (n : string) | ESetGlobals | ERaise.
 
 Definition modifying (e : event) : bool :=
-  match e with EOpenA | ECreateDim _ | ECreateVar _ | ESetAttr _ => true | _ => false end.
+  match e with EOpenA | ECreateDim _ | ECreateVar _ | ESetAttr _ | ESetGlobals => true | _ => false end.
 
 (* ---- the writer's registry (write_vars) ------------------------------------ *)
 Record sentry := { e_c : content; e_ncvar : string; e_ncdims : list string }.
@@ -157,7 +157,8 @@ Definition upd_span f s := {| w_names := w_names s; w_dimsz := w_dimsz s; w_bdim
 Definition set_err s := {| w_names := w_names s; w_dimsz := w_dimsz s; w_bdims := w_bdims s;
   w_seen := w_seen s; w_bnds := w_bnds s; w_span := w_span s; w_created := w_created s;
   w_gl := w_gl s; w_file := w_file s; w_log := w_log s ++ [ERaise]; w_err := true |}.
-(* the only three ways the file is touched *)
+(* the only ways the file is touched: create_dim, create_var, set_created_ref
+   and (mode 'w' only) write_globals *)
 Definition set_file fl cr ev s := {| w_names := w_names s; w_dimsz := w_dimsz s; w_bdims := w_bdims s;
   w_seen := w_seen s; w_bnds := w_bnds s; w_span := w_span s; w_created := cr;
   w_gl := w_gl s; w_file := fl; w_log := w_log s ++ [ev]; w_err := w_err s |}.
@@ -550,9 +551,16 @@ Definition write_field (m : mode) (f : field) (s : wst) : wst :=
 Definition write_fields (m : mode) (fs : list field) (s : wst) : wst :=
   fold_left (fun s f => write_field m f s) fs s.
 
-(* ---- _write_global_attributes (which properties are left off the data variables) ---- *)
+(* ---- _write_global_attributes ---------------------------------------------------- *)
+(* the options of cfdm.write that the method reads: Conventions,
+   file_descriptors, global_attributes, variable_attributes *)
+Record gopts := { o_conv : list string; o_desc : props; o_glob : list string; o_vatt : list string }.
+Definition no_opts : gopts := {| o_conv := []; o_desc := []; o_glob := []; o_vatt := [] |}.
+
 Definition gl_value (f : field) (a : string) : option (option string) := assoc a (f_gl f).
 
+(* attribute [a] is forced (nc_set_global_attribute with a value) on every
+   field with one and the same value *)
 Definition forced (fs : list field) (a : string) : bool :=
   match fs with
   | [] => false
@@ -562,20 +570,127 @@ Definition forced (fs : list field) (a : string) : bool :=
                end
   end.
 
-Definition compute_gl (vr : variant) (gatts : props) (fs : list field) : list string :=
+Definition forced_value (fs : list field) (a : string) : option string :=
+  match fs with
+  | f0 :: _ => if forced fs a then match gl_value f0 a with Some (Some v) => Some v | _ => None end else None
+  | [] => None
+  end.
+
+(* the set g['global_attributes'] as computed for the fields [fs]: requested
+   names, description-of-file-contents attributes and marked properties;
+   minus variable_attributes, file descriptors and forced attributes; only
+   those that the first field has and every other field has with that value *)
+Definition compute_gl0 (o : gopts) (fs : list field) : list string :=
   match fs with
   | [] => []
   | f0 :: rest =>
-    let base := c17_description_attrs ++
+    let base := o_glob o ++ c17_description_attrs ++
                 concat (map (fun f => concat (map (fun p => match snd p with None => [fst p] | Some _ => [] end) (f_gl f))) fs) in
-    let g0 := filter (fun a => negb (forced fs a)) base in
-    let g1 := filter (fun a => match prop_of (f_props f0) a with
-                               | None => false
-                               | Some p0 => forallb (fun f => option_eqb String.eqb (prop_of (f_props f) a) (Some p0)) rest
-                               end) g0 in
+    let g0 := filter (fun a => negb (smem a (o_vatt o)) && negb (has_prop (o_desc o) a) && negb (forced fs a)) base in
+    filter (fun a => match prop_of (f_props f0) a with
+                     | None => false
+                     | Some p0 => forallb (fun f => option_eqb String.eqb (prop_of (f_props f) a) (Some p0)) rest
+                     end) g0
+  end.
+
+(* the append pass (C17-fix-4): a property is left off the new variables only
+   if the file holds it, with the same value, as a global attribute *)
+Definition compute_gl (vr : variant) (o : gopts) (gatts : props) (fs : list field) : list string :=
+  match fs with
+  | [] => []
+  | f0 :: _ =>
     if fx_global vr then
-      filter (fun a => option_eqb String.eqb (assoc a gatts) (prop_of (f_props f0) a)) g1
-    else g1
+      filter (fun a => option_eqb String.eqb (assoc a gatts) (prop_of (f_props f0) a)) (compute_gl0 o fs)
+    else compute_gl0 o fs
+  end.
+
+(* the value of the Conventions attribute; a name that contains CF- followed
+   by a digit anywhere (the regular expression search of the code) is a CF
+   version and is dropped *)
+Definition is_digit (c : Ascii.ascii) : bool :=
+  let n := Ascii.nat_of_ascii c in Nat.leb 48 n && Nat.leb n 57.
+Definition cf_at (s : string) : bool :=
+  match s with
+  | String "C"%char (String "F"%char (String "-"%char (String d _))) => is_digit d
+  | _ => false
+  end.
+Fixpoint has_cf_version (s : string) : bool :=
+  match s with EmptyString => false | String _ r => cf_at s || has_cf_version r end.
+Fixpoint has_char (c : Ascii.ascii) (s : string) : bool :=
+  match s with EmptyString => false | String d r => Ascii.eqb c d || has_char c r end.
+Fixpoint split_on (p : Ascii.ascii -> bool) (s cur : string) : list string :=
+  match s with
+  | EmptyString => [cur]
+  | String c r => if p c then cur :: split_on p r "" else split_on p r (cur ++ String c "")
+  end.
+Definition is_space (c : Ascii.ascii) : bool :=
+  let n := Ascii.nat_of_ascii c in Nat.eqb n 32 || (Nat.leb 9 n && Nat.leb n 13).
+
+Definition conv_list (o : gopts) (fs : list field) : list string :=
+  let l := match o_conv o with
+           | _ :: _ => o_conv o
+           | [] => match forced_value fs "Conventions" with
+                   | Some v => if has_char ","%char v then split_on (Ascii.eqb ","%char) v ""
+                               else filter (fun x => negb (String.eqb x "")) (split_on is_space v "")
+                   | None => []
+                   end
+           end in
+  filter (fun c => negb (has_cf_version c)) l.
+
+(* None: ValueError (a name with a comma) *)
+Definition conv_value (o : gopts) (fs : list field) : option string :=
+  let l := conv_list o fs in
+  if existsb (has_char ","%char) l then None
+  else let l' := ("CF-" ++ c17_cf_version)%string :: l in
+       Some (String.concat (if existsb (has_char " "%char) l' then "," else " ") l').
+
+Definition set_gatt (p : props) (av : string * string) : props :=
+  filter (fun q => negb (String.eqb (fst q) (fst av))) p ++ [av].
+
+(* forced attributes written as such: not a file descriptor, not Conventions *)
+Definition forced_attrs (o : gopts) (fs : list field) : props :=
+  match fs with
+  | [] => []
+  | f0 :: _ => concat (map (fun p => match snd p with
+                                     | Some v => if forced fs (fst p) && negb (has_prop (o_desc o) (fst p))
+                                                    && negb (String.eqb (fst p) "Conventions")
+                                                 then [(fst p, v)] else []
+                                     | None => [] end) (f_gl f0))
+  end.
+
+Definition globals_to_write (o : gopts) (fs : list field) (cv : string) : props :=
+  match fs with
+  | [] => []
+  | f0 :: _ =>
+    [("Conventions", cv)] ++ o_desc o ++
+    concat (map (fun a => if String.eqb a "Conventions" then [] else
+                          match prop_of (f_props f0) a with Some v => [(a, v)] | None => [] end)
+                (compute_gl0 o fs)) ++
+    forced_attrs o fs
+  end.
+
+Definition set_gl (gl : list string) (s : wst) : wst :=
+  {| w_names := w_names s; w_dimsz := w_dimsz s; w_bdims := w_bdims s; w_seen := w_seen s;
+     w_bnds := w_bnds s; w_span := w_span s; w_created := w_created s; w_gl := gl;
+     w_file := w_file s; w_log := w_log s; w_err := w_err s |}.
+
+(* the method itself.  The global attributes of the file are written only
+   when this is neither the dry run nor the pass that follows it
+   ("if not g['dry_run'] and not g['post_dry_run']"): Conventions, the file
+   descriptors, the global attributes (values of the first field), the forced
+   ones.  In the append pass the set is instead reduced to what the file
+   holds (read from the open file). *)
+Definition write_globals (m : mode) (o : gopts) (fs : list field) (s : wst) : wst :=
+  match fs, conv_value o fs with
+  | [], _ => set_err s
+  | _, None => set_err s
+  | _ :: _, Some cv =>
+    let s1 := if negb (m_dry m) && negb (m_post m) && negb (w_err s) then
+                set_file {| d_dims := d_dims (w_file s); d_vars := d_vars (w_file s);
+                            d_gatts := fold_left set_gatt (globals_to_write o fs cv) (d_gatts (w_file s)) |}
+                         (w_created s) ESetGlobals s
+              else s in
+    set_gl (if m_post m then compute_gl (m_var m) o (d_gatts (w_file s1)) fs else compute_gl0 o fs) s1
   end.
 
 (* ---- the refusal decision (append branch of NetCDFWrite.write) ------------------------ *)
@@ -633,32 +748,45 @@ Definition log (ev : list event) (s : wst) : wst :=
      w_bnds := w_bnds s; w_span := w_span s; w_created := w_created s; w_gl := w_gl s;
      w_file := w_file s; w_log := w_log s ++ ev; w_err := w_err s |}.
 
-Definition set_gl (gl : list string) (s : wst) : wst :=
+(* _file_io_iteration opens the file: g['nc'] (variables created so far) starts empty *)
+Definition reopen (s : wst) : wst :=
   {| w_names := w_names s; w_dimsz := w_dimsz s; w_bdims := w_bdims s; w_seen := w_seen s;
-     w_bnds := w_bnds s; w_span := w_span s; w_created := []; w_gl := gl;
+     w_bnds := w_bnds s; w_span := w_span s; w_created := []; w_gl := w_gl s;
      w_file := w_file s; w_log := w_log s; w_err := w_err s |}.
 
-Definition append_run (vr : variant) (netcdf4 : bool) (e : file) (orig new : list field) : wst :=
+Definition dry_mode (vr : variant) : mode := {| m_dry := true; m_post := false; m_var := vr |}.
+Definition post_mode (vr : variant) : mode := {| m_dry := false; m_post := true; m_var := vr |}.
+Definition w_mode (vr : variant) : mode := {| m_dry := false; m_post := false; m_var := vr |}.
+
+(* the state after the dry run over the fields re-read from the file
+   (_write_global_attributes is not called in the dry run) *)
+Definition dry_run (vr : variant) (e : file) (orig : list field) : wst :=
+  log [EClose] (write_fields (dry_mode vr) orig (log [EOpenR] (init e))).
+
+Definition append_run (vr : variant) (netcdf4 : bool) (o : gopts) (e : file) (orig new : list field) : wst :=
   if refuse vr netcdf4 orig new then set_err (init e)
   else
-    let dry := {| m_dry := true; m_post := false; m_var := vr |} in
-    let post := {| m_dry := false; m_post := true; m_var := vr |} in
-    let s1 := log [EClose] (write_fields dry orig (log [EOpenR] (init e))) in
+    let s1 := dry_run vr e orig in
     if w_err s1 then s1
-    else log [EClose] (write_fields post new
-                         (set_gl (compute_gl vr (d_gatts e) new) (log [EOpenA] s1))).
+    else log [EClose] (write_fields (post_mode vr) new
+                         (write_globals (post_mode vr) o new (reopen (log [EOpenA] s1)))).
 
-Definition append (vr : variant) (netcdf4 : bool) (e : file) (orig new : list field) : file * outcome :=
-  let s := append_run vr netcdf4 e orig new in
+Definition append (vr : variant) (netcdf4 : bool) (o : gopts) (e : file) (orig new : list field) : file * outcome :=
+  let s := append_run vr netcdf4 o e orig new in
   (w_file s, if refuse vr netcdf4 orig new then Refused else if w_err s then Failed else Done).
 
 (* a sequence of appends; [reread] stands for cfdm.read of the current file *)
 Fixpoint append_seq (vr : variant) (netcdf4 : bool) (reread : file -> list field) (e : file)
-         (news : list (list field)) : file :=
+         (news : list (gopts * list field)) : file :=
   match news with
   | [] => e
-  | n :: r => append_seq vr netcdf4 reread (fst (append vr netcdf4 e (reread e) n)) r
+  | n :: r => append_seq vr netcdf4 reread (fst (append vr netcdf4 (fst n) e (reread e) (snd n))) r
   end.
+
+(* cfdm.write(mode='w') to a new file: one pass, global attributes written *)
+Definition empty_file : file := {| d_dims := []; d_vars := []; d_gatts := [] |}.
+Definition create_run (vr : variant) (o : gopts) (fs : list field) : wst :=
+  log [EClose] (write_fields (w_mode vr) fs (write_globals (w_mode vr) o fs (log [EOpenA] (init empty_file)))).
 
 (* ---- an abstract reader: which variables are data variables, and what a
         data variable's field is built from --------------------------------------------- *)
